@@ -60,7 +60,9 @@ prop("C02", engine="eval", prefixes=["C02."], level="model_checking",
 prop("C05", engine="eval", prefixes=["C05."], level="model_checking",
      mc=("MxEval", "MC_MxEval_quick.cfg", "MC_MxEval_thorough.cfg"),
      jobs=lambda tier: [("fail", dict(gen=dict(p_raise=0.2, p_none=0.1, p_catch=0.2, p_base_exc=0.3))),
-                        ("fail", dict(gen=dict(p_raise=0.1, p_none=0.05, p_base_exc=0.2), maxdepth=3)),
+                        # (no swallowing handlers under a reduced limit: a DeepReferenceError caught inside a
+                        #  formula makes values history dependent by design, which the oracle does not model)
+                        ("fail", dict(gen=dict(p_raise=0.1, p_none=0.05, p_base_exc=0.2, p_catch=0.0), maxdepth=3)),
                         ("fail", dict(gen=dict(p_raise=0.25, p_catch=0.1, p_rr=0.3, p_base_exc=0.2))),
                         ("fail", dict(gen=dict(p_raise=0.2, p_uncached=0.5, p_catch=0.0)))],
      quick=dict(traces=128, nops=30), thorough=dict(traces=3200, nops=40),
